@@ -25,7 +25,8 @@
                   (/repo 00b9f6e, found with C20); without it read_conn_packets uses an
                   uninitialised length: undefined behaviour
      cf_udp_garbage_drop  an unparsable UDP datagram is dropped instead of being treated as a
-                  connection error (fixes/C05-udp-garbage-drop.patch); TCP is unchanged
+                  connection error (fixes/C05-udp-garbage-drop.patch: PROPOSED, NOT APPLIED - a
+                  variant that is not the code in /repo; [fixed_cfg] has it false); TCP is unchanged
    With all four false the model is the pinned tree. *)
 From Coq Require Import ZArith List Bool Lia.
 From CAres.Base Require Import Outcome CInt.
@@ -577,7 +578,7 @@ Definition init_chan (servers : list server) : chan := mkChan [] [] servers [] [
 (* ------------------------------------------------------------------------------------- *)
 Definition fixed_cfg (dns0x20 igntc nocheckresp usevc : bool) (max_tries : Z) (qcache : bool)
            (max_ttl : Z) : config :=
-  mkCfg dns0x20 igntc nocheckresp usevc max_tries qcache max_ttl true true true true.
+  mkCfg dns0x20 igntc nocheckresp usevc max_tries qcache max_ttl true true true false.
 Definition pinned_cfg (dns0x20 igntc nocheckresp usevc : bool) (max_tries : Z) (qcache : bool)
            (max_ttl : Z) : config :=
   mkCfg dns0x20 igntc nocheckresp usevc max_tries qcache max_ttl false false false false.
